@@ -105,7 +105,7 @@ func iGit(home, dir string, conf []string, args ...string) iRes {
 	defer cancel()
 	cmd := exec.CommandContext(ctx, "git", full...)
 	cmd.Env = iGitEnv(home)
-	cmd.WaitDelay = 2 * time.Second
+	cmd.WaitDelay = 20 * time.Second
 	var o, e bytes.Buffer
 	cmd.Stdout, cmd.Stderr = &o, &e
 	err := cmd.Run()
@@ -114,6 +114,10 @@ func iGit(home, dir string, conf []string, args ...string) iRes {
 		r.TimedOut = true
 		r.Code = -1
 		return r
+	}
+	if errors.Is(err, exec.ErrWaitDelay) {
+		// the process exited; a detached grandchild (e.g. auto maintenance) kept a pipe open
+		err = nil
 	}
 	if err != nil {
 		var ee *exec.ExitError
